@@ -18,10 +18,11 @@ class ClassDecl:
 
 
 class GhostDecl:
-    def __init__(self, name, sort, doc=""):
+    def __init__(self, name, sort, doc="", elem=None):
         self.name = name
         self.sort = sort
         self.doc = doc
+        self.elem = elem      # 'obj': the values are object ids
 
 
 class GlobDecl:
@@ -83,6 +84,16 @@ class Contract:
 
     def requires(self, label, expr):
         self.requires_.append((label, expr))
+        return self
+
+    def rely(self, label, expr, tag):
+        """Representation invariant / rely that is assumed on entry and is
+        NOT proved at call sites: an explicit assumption (tag) listed in the
+        evidence."""
+        if not hasattr(self, "relies_"):
+            self.relies_ = []
+        self.relies_.append((label, expr, tag))
+        self.assumes_.append(tag)
         return self
 
     def ensures(self, label, expr, prop=None):
@@ -354,8 +365,8 @@ class Schema:
             self.src_class[(module, d.src_name)] = name
         return d
 
-    def ghost(self, name, sort, doc=""):
-        self.ghosts[name] = GhostDecl(name, sort, doc)
+    def ghost(self, name, sort, doc="", elem=None):
+        self.ghosts[name] = GhostDecl(name, sort, doc, elem)
 
     def glob(self, module, name, T, inv=None, const=None, doc=""):
         self.globs[(module, name)] = GlobDecl(module, name, T, inv, const, doc)
